@@ -1201,9 +1201,28 @@ def stream_dyn(ctx, tab, pkg, rt):
         ctx.stream_broken('alias_dyn', f'coverage degenerated: {st.extra["coverage"]}')
 
 
+# Falsy values that are type-plausible for each old keyword: an old keyword given explicitly with such a value must be
+# renamed and warned about like any other ("not set" is expressed by omitting the keyword, not by its value).
+FALSY = {
+    'onlyRobust': [None, False, 0], 'robustStdErr': [None, False, 0], 'useBootstrap': [None, False, 0],
+    'myBetas': [None, []], 'pickleFile': [None, ''], 'theRawResults': [None],
+    'suggestScales': [None, False], 'numberOfThreads': [None, 0], 'numberOfDraws': [None, 0], 'missingData': [None, 0],
+    'parameter_file': [None], 'userNotes': [None, ''], 'generateHtml': [None, False], 'saveIterations': [None, False],
+    'seed_param': [None, 0], 'bootstrap': [None, False, 0], 'theBetaValues': [None, {}],
+    'prepareIds': [None, False, 0], 'uniformNumbers': [None],
+}
+
+
 def kw_cases(ctx, tab):
     rng = ctx.sub_rng('kw_dyn')
     cases = []
+
+    def falsy(o):
+        vals = FALSY.get(o, [None])
+        if not ctx.quick:
+            return vals
+        # quick tier: None always, plus one of the other falsy values
+        return [vals[0]] + ([rng.choice(vals[1:])] if len(vals) > 1 else [])
     for k in tab['kwuses']:
         q = f'{k["mod"]}:{k["owner"]}' if k['owner'] else ''
         live = [p['name'] for p in k['params'] if p['kind'] in ('PosOrKw', 'KwOnly')] + list(k['extra'])
@@ -1216,6 +1235,9 @@ def kw_cases(ctx, tab):
             for v in range(ctx.n(1, 3)):
                 cases.append({'kind': 'kw', 'cls': q, 'mod': k['mod'], 'func': k['name'], 'okw': o, 'nkw': n, 'variant': v,
                               'seed': rng.randrange(10 ** 6), 'via': None})
+            for fv in falsy(o):
+                cases.append({'kind': 'kw', 'cls': q, 'mod': k['mod'], 'func': k['name'], 'okw': o, 'nkw': n,
+                              'variant': rng.randrange(3), 'seed': rng.randrange(10 ** 6), 'via': None, 'fv': {'value': fv}})
     # the old spelling through the deprecated alias of the function (T20a's keyword-map clause)
     for a in tab['aliases']:
         for o, n in a['captured_kwmap']:
@@ -1223,13 +1245,16 @@ def kw_cases(ctx, tab):
                 q = f'{a["mod"]}:{a["owner"]}' if a['owner'] else ''
                 cases.append({'kind': 'kw', 'cls': q, 'mod': a['mod'], 'func': a['new'], 'okw': o, 'nkw': n, 'variant': 0,
                               'seed': rng.randrange(10 ** 6), 'via': a['old']})
+                cases.append({'kind': 'kw', 'cls': q, 'mod': a['mod'], 'func': a['new'], 'okw': o, 'nkw': n, 'variant': 0,
+                              'seed': rng.randrange(10 ** 6), 'via': a['old'], 'fv': {'value': None}})
     return cases
 
 
 def stream_kw(ctx, tab):
     st = ctx.stream('kw_dyn', 'every (function, old keyword -> new keyword) of every @deprecated_parameters map: the function '
                     'called with the old keyword vs with the new one (ignored keywords: vs without it), same comparison as '
-                    'alias_dyn, exactly one DeprecationWarning for the keyword; plus the old spelling passed through the '
+                    'alias_dyn, exactly one DeprecationWarning for the keyword; values: representative ones and the type-plausible falsy '
+                    'ones (None, False, 0, "", [], {}); plus the old spelling passed through the '
                     'deprecated alias of the function; non-trivial = the call did not raise')
     cases = kw_cases(ctx, tab)
     nshard = 12
@@ -1261,6 +1286,7 @@ Definition ev_eqb (a b : kwevent) : bool :=
   | EvIgnored o, EvIgnored o' => String.eqb o o'
   | _, _ => false end.
 Definition kv_eqb (a b : string * Z) : bool := String.eqb (fst a) (fst b) && Z.eqb (snd a) (snd b).
+(* values are opaque to the loop (the model is parametric in their type): they are sent as injective integer codes *)
 Definition chk (c : list (string * option string) * list (string * Z) * list kwevent * list (string * Z)) : bool :=
   let '(m, kw, ev, out) := c in
   let '(ev', out') := rename_kwargs m kw in
@@ -1271,27 +1297,56 @@ Definition chk (c : list (string * option string) * list (string * Z) * list kwe
 def stream_kwloop(ctx):
     st = ctx.stream('kw_loop', 'the wrapper of deprecated_parameters around a probe function vs Alias.rename_kwargs on generated '
                     'maps (renamed / ignored entries, chains a->b->c, two old names onto one new name) and keyword arguments '
-                    '(old and new spelling together, untouched keywords): forwarded keywords in order with their values and the '
+                    '(old and new spelling together, untouched keywords; values: integers and the falsy None, False, 0, "", [], {}): forwarded '
+                    'keywords in order with their values and the '
                     'sequence of warnings; non-trivial = at least one obsolete keyword passed')
     rng = ctx.sub_rng('kw_loop')
     names = ['a', 'b', 'c', 'oldName', 'new_name', 'x1', 'kw', 'numberOfDraws', 'number_of_draws']
+    special = [None, False, 0, '', [], {}]  # falsy values must travel like any other
+
+    def code(x):
+        """injective integer code of a value (the loop never looks inside a value)"""
+        for i, sp in enumerate(special):
+            if type(x) is type(sp) and x == sp:
+                return -1000 - i
+        if type(x) is int and -1000 < x:
+            return x
+        return None
+
     cases = []
     for _ in range(ctx.n(200, 3000)):
         m = []
         for o in rng.sample(names, rng.randint(0, 4)):
             m.append([o, None if rng.random() < 0.25 else rng.choice(names)])
         keys = rng.sample(names, rng.randint(0, 5))
-        kw = [[k, rng.randint(-5, 50)] for k in keys]
+        kw = [[k, rng.choice(special) if rng.random() < 0.35 else rng.randint(-5, 50)] for k in keys]
         cases.append({'map': m, 'kwargs': kw, 'args': [rng.randint(0, 3) for _ in range(rng.randint(0, 2))]})
     res = ctx.impl('c20_kwloop.py', cases)
     items, kept = [], []
     for c, r in zip(cases, res):
-        nontriv = any(k in dict(map(tuple, c['map'])) for k, _ in c['kwargs'])
+        mp = dict(map(tuple, c['map']))
+        nontriv = any(k in mp for k, _ in c['kwargs'])
         st.record(c, nontrivial=nontriv)
         if not r['ok']:
             st.disagree(c, 'the wrapper returns', r)
             continue
-        if any(not isinstance(x, int) or isinstance(x, bool) for _, x in r['kwargs']):
+        # property oracle, directly on the implementation: every passed keyword is forwarded under its target with
+        # its value (or dropped when the map says "ignored"), one warning per obsolete keyword, nothing else
+        exp = {}
+        for k, v in c['kwargs']:
+            if k in mp and mp[k] is None:
+                continue
+            exp[mp[k] if k in mp else k] = v
+        n_obsolete = sum(1 for k, _ in c['kwargs'] if k in mp)
+        got = {k: v for k, v in r['kwargs']}
+        same = set(got) == set(exp) and all(type(got[k]) is type(exp[k]) and got[k] == exp[k] for k in exp)
+        if not same or len(r['events']) != n_obsolete or r['args'] != c['args']:
+            ctx.violation('C20/kw_loop/forwarding', 'deprecated_parameters does not forward a call as the renaming map says',
+                          {'map': c['map'], 'kwargs': c['kwargs'], 'args': c['args']},
+                          {'forwarded': exp, 'warnings': n_obsolete}, {'forwarded': r['kwargs'], 'warnings': r['events']},
+                          how='./check C20 --replay <this file>  (decorates a probe function with deprecated_parameters(map) '
+                              'and calls it with the keyword arguments)')
+        if any(code(x) is None for _, x in r['kwargs']):
             st.disagree(c, 'every forwarded value is one of the passed values', r)
             continue
         if r['args'] != c['args'] or any(e[0] == 'other' for e in r['events']):
@@ -1300,12 +1355,12 @@ def stream_kwloop(ctx):
         ev = []
         for e in r['events']:
             ev.append(f'EvRenamed {cs(e[1])} {cs(e[2])}' if e[0] == 'renamed' else f'EvIgnored {cs(e[1])}')
-        kwv = dict(map(tuple, c['kwargs']))
+        kwv = dict((k, v) for k, v in c['kwargs'])
         bad_val = [e for e in r['events'] if e[0] == 'renamed' and str(kwv.get(e[1])) != e[3]]
         if bad_val:
             st.disagree(c, 'warning quotes the passed value', r)
-        items.append('(' + c_kwmap(c['map']) + ', ' + coq_list([f'({cs(k)}, ({v})%Z)' for k, v in c['kwargs']]) + ', '
-                     + coq_list(ev) + ', ' + coq_list([f'({cs(k)}, ({v})%Z)' for k, v in r['kwargs']]) + ')')
+        items.append('(' + c_kwmap(c['map']) + ', ' + coq_list([f'({cs(k)}, ({code(v)})%Z)' for k, v in c['kwargs']]) + ', '
+                     + coq_list(ev) + ', ' + coq_list([f'({cs(k)}, ({code(v)})%Z)' for k, v in r['kwargs']]) + ')')
         kept.append((c, r))
     files, B = {}, 400
     for i in range(0, len(items), B):
@@ -1441,6 +1496,19 @@ def replay(ctx, path):
     if not isinstance(wit, dict):
         print('replay: this file names an obligation/stream; re-run ./check C20')
         return 2
+    if 'map' in wit and 'kwargs' in wit:  # a kw_loop case
+        r = ctx.impl('c20_kwloop.py', [wit])[0]
+        mp = dict(map(tuple, wit['map']))
+        exp = {}
+        for k, v in wit['kwargs']:
+            if not (k in mp and mp[k] is None):
+                exp[mp[k] if k in mp else k] = v
+        n_obs = sum(1 for k, _ in wit['kwargs'] if k in mp)
+        got = {k: v for k, v in r.get('kwargs', [])}
+        bad = (not r['ok'] or set(got) != set(exp) or any(type(got[k]) is not type(exp[k]) or got[k] != exp[k] for k in exp)
+               or len(r['events']) != n_obs or r['args'] != wit['args'])
+        print(json.dumps({'witness': wit, 'expected': exp, 'observed': r, 'still_fails': bad}))
+        return 1 if bad else 0
     if 'variant' in wit:  # a dynamic case
         r = ctx.impl('c20_dyn.py', {'cases': [wit]})['results'][0]
         bad = r['status'] == 'ran' and (bool(r['diffs']) or r['alias_warnings'] != 1)
